@@ -631,8 +631,11 @@ root:
 		d.externalTrackerMutex.Lock()
 		for ch := 15; ch >= 0; ch-- {
 			for note := range d.externalNoteTracker[byte(ch)] {
-				note = note - byte(offset)
-				for _, code := range MidiKeyMappings[d.mapping][note] {
+				base := int(note) - offset
+				if base < 0 || base > 127 {
+					continue
+				}
+				for _, code := range MidiKeyMappings[d.mapping][byte(base)] {
 					id, ok := indexMap[code]
 					if !ok {
 						continue
@@ -644,8 +647,11 @@ root:
 
 		// current channel
 		for note := range d.externalNoteTracker[d.channel] {
-			note = note - byte(offset)
-			for _, code := range MidiKeyMappings[d.mapping][note] {
+			base := int(note) - offset
+			if base < 0 || base > 127 {
+				continue
+			}
+			for _, code := range MidiKeyMappings[d.mapping][byte(base)] {
 				id, ok := indexMap[code]
 				if !ok {
 					continue
@@ -657,9 +663,12 @@ root:
 
 		// other channels
 		for _, noteAndChannel := range d.noteTracker {
-			note := noteAndChannel[0] - byte(offset)
+			base := int(noteAndChannel[0]) - offset
+			if base < 0 || base > 127 {
+				continue
+			}
 
-			for _, code := range MidiKeyMappings[d.mapping][note] {
+			for _, code := range MidiKeyMappings[d.mapping][byte(base)] {
 				id, ok := indexMap[code]
 				if !ok {
 					continue
